@@ -699,6 +699,9 @@ func (fx *FuncCtx) writeField(st *State, ref Term, elem, path string, ft types.T
 		put(key+"#b", sortArr, vv.B)
 		put(key+"#o", sortInt, vv.O)
 		put(key+"#l", sortInt, vv.L)
+	case VRefs:
+		put(key+"#refs", sortArr, vv.Arr)
+		put(key+"#n", sortInt, vv.N)
 	case VOpaque:
 		// unmodelled field contents
 	case VStruct:
